@@ -30,13 +30,18 @@ func (c *char) Skill(target key.TargetID, state info.ActionState) {
 	}
 
 	for i := 0; i < bounceCount; i++ {
-		target := c.engine.Retarget(info.Retarget{
+		targets := c.engine.Retarget(info.Retarget{
 			Targets: c.engine.Enemies(),
 			Filter: func(target key.TargetID) bool {
 				return c.engine.HPRatio(target) > 0
 			},
 			Max: 1,
-		})[0]
+		})
+		// every enemy is already at zero HP: nothing left to bounce to
+		if len(targets) == 0 {
+			break
+		}
+		target := targets[0]
 		c.engine.Attack(info.Attack{
 			Key:        Skill,
 			AttackType: model.AttackType_SKILL,
